@@ -212,6 +212,43 @@ var mutations = []mutation{
 		fixExtrinsicHash(b)
 		return true
 	}},
+	{name: "preimage-solicited-by-another-service-only", stage: 7, mustReject: "C31", apply: func(ru *run, p *chainBlock, b *types.Block, _ *[]types.Ed25519Public) bool {
+		// a blob that one service solicited (and the block rightly provides to it) is ALSO handed to a service that
+		// never asked for it
+		e := append(types.PreimagesExtrinsic(nil), b.Extrinsic.Preimages...)
+		if len(e) == 0 || len(ru.g.svcIDs) < 2 {
+			return false
+		}
+		src := e[ru.t.Choose(len(e), "copied_entry")]
+		var others []types.ServiceID
+		for _, sid := range ru.g.svcIDs {
+			if sid == src.Requester {
+				continue
+			}
+			if _, has := rawLookup(p.kvs, sid, types.LookupMetaMapkey{Hash: h256(src.Blob), Length: types.U32(len(src.Blob))}); has {
+				continue // that service has an entry for the blob too
+			}
+			dup := false
+			for _, x := range e {
+				dup = dup || (x.Requester == sid && string(x.Blob) == string(src.Blob))
+			}
+			if !dup {
+				others = append(others, sid)
+			}
+		}
+		if len(others) == 0 {
+			return false
+		}
+		sid := others[ru.t.Choose(len(others), "other_service")]
+		if sid > src.Requester {
+			ru.r.Count("fault:unsolicited_copy_for_a_higher_service_id", 1)
+		}
+		e = append(e, types.Preimage{Requester: sid, Blob: append(types.ByteSequence(nil), src.Blob...)})
+		sortPreimages(e)
+		b.Extrinsic.Preimages = e
+		fixExtrinsicHash(b)
+		return true
+	}},
 	{name: "preimage-already-provided", stage: 7, mustReject: "C31", apply: func(ru *run, p *chainBlock, b *types.Block, _ *[]types.Ed25519Public) bool {
 		// a blob that is stored already (provided at genesis or by an ancestor block)
 		for _, sid := range ru.g.svcIDs {
